@@ -17,6 +17,7 @@ fn main() {
         "pos" => pos::run(n, args.get(3).map(|s| s.as_str()).unwrap_or("full")),
         "replaypos" => pos::replay(&args[2]),
         "mirror" => pos::mirror(n),
+        "endgame" => pos::endgame(n),
         "fen" => text::fen(n),
         "fenfuzz" => text::fenfuzz(n),
         "builder" => text::builder(n),
